@@ -351,9 +351,11 @@ def conforms(items, ty, v):
     return v[0] == {"binary": "bin", "double": "dbl"}.get(ttype(items, ty), ttype(items, ty))
 
 
-def project_ty(items, ty, v):
+def project_ty(items, ty, v, keep=False):
     """the value a decoder for declared type ty returns for wire value v (which has ty's wire type)"""
     k = ty[0]
+    if keep:
+        return project_ty_keep(items, ty, v)
     if k in ("list", "set"):
         xs = [project_ty(items, ty[1], x) for x in v[2]]
         if k == "set":
@@ -373,6 +375,196 @@ def project_ty(items, ty, v):
             return project_ty(items, it["ty"], v)
         return project_item(items, it, v)
     return v
+
+
+def project_ty_keep(items, ty, v):
+    k = ty[0]
+    if k in ("list", "set"):
+        xs = [project_ty_keep(items, ty[1], x) for x in v[2]]
+        if k == "set":
+            xs = dedup(xs)
+        return (k, ttype(items, ty[1]), xs)
+    if k == "map":
+        d = {}
+        for a, b in v[3]:
+            pa = project_ty_keep(items, ty[1], a)
+            d[sexp(canon(pa))] = (pa, project_ty_keep(items, ty[2], b))
+        return ("map", ttype(items, ty[1]), ttype(items, ty[2]), list(d.values()))
+    if k == "ref":
+        it = items[ty[1]]
+        if it["kind"] == "enum":
+            return v
+        if it["kind"] == "typedef":
+            return project_ty_keep(items, it["ty"], v)
+        return project_item_keep(items, it, v)
+    return v
+
+
+def project_item_keep(items, it, v):
+    """with keep_unknown_fields: unknown fields are retained, in wire order, after the known ones (C13)"""
+    known = {f["id"]: f for f in it["fields"]}
+
+    def is_known(i, x):
+        return i in known and known[i]["ty"] is not None and wire_tt(x) == ttype(items, known[i]["ty"])
+    if it["kind"] == "union":
+        hit = [(i, x) for i, x in v[1] if is_known(i, x)]
+        unk = [(i, x) for i, x in v[1] if not is_known(i, x)]
+        if len(hit) > 1:
+            raise Reject("multiple")
+        if hit:
+            # retention never changes how known fields decode: the known variant, unknown fields ignored
+            i, x = hit[0]
+            return ("struct", [(i, project_ty_keep(items, known[i]["ty"], x))])
+        if len(unk) == 1:
+            return ("struct", unk)
+        if not unk and it["fields"] and it["fields"][0]["ty"] is None and it["fields"][0]["name"] == "Ok":
+            return ("struct", [])
+        raise Reject("empty or several unknown")
+    out = []
+    for f in it["fields"]:
+        got = [x for i, x in v[1] if i == f["id"] and wire_tt(x) == ttype(items, f["ty"])]
+        if got:
+            out.append((f["id"], project_ty_keep(items, f["ty"], got[-1])))
+        elif f.get("default") is not None:
+            out.append((f["id"], lower_default(items, f["ty"], f["default"])))
+        elif f["req"] == "required":
+            raise Reject(f"required {f['name']}")
+    out += [(i, x) for i, x in v[1] if not is_known(i, x)]
+    return ("struct", out)
+
+
+def expected_keep(items, name, v):
+    try:
+        return sexp(canon(project_item_keep(items, items[name], v)))
+    except Reject:
+        return "err"
+
+
+def arg_types(doc):
+    out = set()
+    for it in doc["items"]:
+        if it["kind"] == "service":
+            for m in it["methods"]:
+                for f in m["args"]:
+                    if f["ty"][0] == "ref":
+                        out.add(f["ty"][1])
+    return out
+
+
+def inject_unknowns(items, ty, v, r, p=0.5):
+    """insert fields no reader declares into v and into every struct nested in it"""
+    k = ty[0]
+    if k in ("list", "set"):
+        return (v[0], v[1], [inject_unknowns(items, ty[1], x, r, p) for x in v[2]])
+    if k == "map":
+        return ("map", v[1], v[2], [(a, inject_unknowns(items, ty[2], b, r, p)) for a, b in v[3]])
+    if k != "ref":
+        return v
+    it = items[ty[1]]
+    if it["kind"] == "typedef":
+        return inject_unknowns(items, it["ty"], v, r, p)
+    if it["kind"] == "enum":
+        return v
+    known = {f["id"]: f for f in it["fields"]}
+    fs = [(i, inject_unknowns(items, known[i]["ty"], x, r, p) if i in known and known[i]["ty"] is not None else x) for i, x in v[1]]
+    if r.random() < p:
+        for _ in range(r.randrange(1, 3)):
+            i = r.choice([x for x in [r.randrange(40, 90), 999, 32000, -1, -200] if x not in known] or [9999])
+            fs.insert(r.randrange(len(fs) + 1), (i, unknown_value(r)))
+    return ("struct", fs)
+
+
+def reaches(items, name, pred, seen=None):
+    """does the declared type `name` reach an item satisfying pred (itself, or through fields, containers, typedefs)?"""
+    seen = seen if seen is not None else set()
+    if name in seen:
+        return False
+    seen.add(name)
+    it = items[name]
+
+    def ty_reaches(ty):
+        if ty is None:
+            return False
+        k = ty[0]
+        if k in ("list", "set"):
+            return ty_reaches(ty[1])
+        if k == "map":
+            return ty_reaches(ty[1]) or ty_reaches(ty[2])
+        return k == "ref" and reaches(items, ty[1], pred, seen)
+    if pred(it):
+        return True
+    if it["kind"] == "typedef":
+        return ty_reaches(it["ty"])
+    if it["kind"] == "enum":
+        return False
+    return any(ty_reaches(f["ty"]) for f in it["fields"])
+
+
+def reaches_union(items, name):
+    return reaches(items, name, lambda it: it["kind"] == "union")
+
+
+def contains_type(items, ty, v, names):
+    """does value v (of declared type ty) contain a struct value of one of the named types?"""
+    k = ty[0]
+    if k in ("list", "set"):
+        return any(contains_type(items, ty[1], x, names) for x in v[2])
+    if k == "map":
+        return any(contains_type(items, ty[1], a, names) or contains_type(items, ty[2], b, names) for a, b in v[3])
+    if k != "ref":
+        return False
+    it = items[ty[1]]
+    if it["kind"] == "typedef":
+        return contains_type(items, it["ty"], v, names)
+    if it["kind"] == "enum":
+        return False
+    if ty[1] in names:
+        return True
+    known = {f["id"]: f for f in it["fields"]}
+    return any(i in known and known[i]["ty"] is not None and wire_tt(x) == ttype(items, known[i]["ty"]) and contains_type(items, known[i]["ty"], x, names) for i, x in v[1])
+
+
+def d12_fires(items, ty, v, args):
+    """D12: somewhere in v an argument-type struct value carries at least as many known fields as the type declares,
+    so the retention decoder's `__pilota_fields_num == 0` shortcut takes the rest of the buffer"""
+    k = ty[0]
+    if k in ("list", "set"):
+        return any(d12_fires(items, ty[1], x, args) for x in v[2])
+    if k == "map":
+        return any(d12_fires(items, ty[1], a, args) or d12_fires(items, ty[2], b, args) for a, b in v[3])
+    if k != "ref":
+        return False
+    it = items[ty[1]]
+    if it["kind"] == "typedef":
+        return d12_fires(items, it["ty"], v, args)
+    if it["kind"] == "enum":
+        return False
+    known = {f["id"]: f for f in it["fields"]}
+    kn = [(i, x) for i, x in v[1] if i in known and known[i]["ty"] is not None and wire_tt(x) == ttype(items, known[i]["ty"])]
+    if ty[1] in args and it["kind"] in ("struct", "exception") and len(kn) >= len(it["fields"]):
+        return True
+    return any(d12_fires(items, known[i]["ty"], x, args) for i, x in kn)
+
+
+def union_known_plus_unknown(items, ty, v):
+    """D31: somewhere in v a union value carries a known variant together with an unknown field"""
+    k = ty[0]
+    if k in ("list", "set"):
+        return any(union_known_plus_unknown(items, ty[1], x) for x in v[2])
+    if k == "map":
+        return any(union_known_plus_unknown(items, ty[2], b) for _, b in v[3])
+    if k != "ref":
+        return False
+    it = items[ty[1]]
+    if it["kind"] == "typedef":
+        return union_known_plus_unknown(items, it["ty"], v)
+    if it["kind"] == "enum":
+        return False
+    known = {f["id"]: f for f in it["fields"]}
+    kn = [(i, x) for i, x in v[1] if i in known and known[i]["ty"] is not None and wire_tt(x) == ttype(items, known[i]["ty"])]
+    if it["kind"] == "union" and kn and len(kn) < len(v[1]):
+        return True
+    return any(union_known_plus_unknown(items, known[i]["ty"], x) for i, x in kn)
 
 
 def wire_tt(v):
@@ -404,9 +596,114 @@ def project_item(items, it, v):
     return ("struct", out)
 
 
+def enc_bin(v):
+    """big-endian binary protocol encoding (only used to print non-struct top-level values the way the harness does)"""
+    k = v[0]
+    TT = {"bool": 2, "i8": 3, "double": 4, "i16": 6, "i32": 8, "i64": 10, "binary": 11, "struct": 12, "map": 13, "set": 14, "list": 15, "uuid": 16}
+    if k == "bool":
+        return bytes([1 if v[1] else 0])
+    if k in ("i8", "i16", "i32", "i64"):
+        w = int(k[1:]) // 8
+        return (v[1] % (1 << (8 * w))).to_bytes(w, "big")
+    if k == "dbl":
+        return v[1].to_bytes(8, "big")
+    if k == "bin":
+        return len(v[1]).to_bytes(4, "big") + v[1]
+    if k == "uuid":
+        return v[1]
+    if k == "struct":
+        return b"".join(bytes([TT[wire_tt(x)]]) + (i % 65536).to_bytes(2, "big") + enc_bin(x) for i, x in v[1]) + b"\x00"
+    if k in ("list", "set"):
+        return bytes([TT[v[1]]]) + len(v[2]).to_bytes(4, "big") + b"".join(enc_bin(x) for x in v[2])
+    return bytes([TT[v[1]], TT[v[2]]]) + len(v[3]).to_bytes(4, "big") + b"".join(enc_bin(a) + enc_bin(b) for a, b in v[3])
+
+
+def enc_le(v):
+    """little-endian binary protocol encoding"""
+    k = v[0]
+    TT = {"bool": 2, "i8": 3, "double": 4, "i16": 6, "i32": 8, "i64": 10, "binary": 11, "struct": 12, "map": 13, "set": 14, "list": 15, "uuid": 16}
+    if k == "bool":
+        return bytes([1 if v[1] else 0])
+    if k in ("i8", "i16", "i32", "i64"):
+        w = int(k[1:]) // 8
+        return (v[1] % (1 << (8 * w))).to_bytes(w, "little")
+    if k == "dbl":
+        return v[1].to_bytes(8, "little")
+    if k == "bin":
+        return len(v[1]).to_bytes(4, "little") + v[1]
+    if k == "uuid":
+        return v[1]
+    if k == "struct":
+        return b"".join(bytes([TT[wire_tt(x)]]) + (i % 65536).to_bytes(2, "little") + enc_le(x) for i, x in v[1]) + b"\x00"
+    if k in ("list", "set"):
+        return bytes([TT[v[1]]]) + len(v[2]).to_bytes(4, "little") + b"".join(enc_le(x) for x in v[2])
+    return bytes([TT[v[1]], TT[v[2]]]) + len(v[3]).to_bytes(4, "little") + b"".join(enc_le(a) + enc_le(b) for a, b in v[3])
+
+
+def _varint(n):
+    out = bytearray()
+    while n >= 0x80:
+        out.append((n & 0x7F) | 0x80)
+        n >>= 7
+    out.append(n)
+    return bytes(out)
+
+
+def _zz(n, bits=64):
+    return ((n << 1) ^ (n >> (bits - 1))) & ((1 << bits) - 1)
+
+
+CT = {"bool": 1, "i8": 3, "i16": 4, "i32": 5, "i64": 6, "double": 7, "binary": 8, "list": 9, "set": 10, "map": 11, "struct": 12, "uuid": 13}
+
+
+def enc_cmp(v):
+    """compact protocol encoding (as Thrift/Compact.lean `enc`)"""
+    k = v[0]
+    if k == "bool":
+        return bytes([1 if v[1] else 2])
+    if k == "i8":
+        return bytes([v[1] % 256])
+    if k in ("i16", "i32", "i64"):
+        return _varint(_zz(v[1]))
+    if k == "dbl":
+        return v[1].to_bytes(8, "little")
+    if k == "bin":
+        return _varint(len(v[1])) + v[1]
+    if k == "uuid":
+        return v[1]
+    if k == "struct":
+        out, last = bytearray(), 0
+        for i, x in v[1]:
+            ct = (1 if x[1] else 2) if x[0] == "bool" else CT[wire_tt(x)]
+            d = i - last
+            out += bytes([d * 16 + ct]) if 0 < d < 15 else bytes([ct]) + _varint(_zz(i))
+            if x[0] != "bool":
+                out += enc_cmp(x)
+            last = i
+        return bytes(out) + b"\x00"
+    if k in ("list", "set"):
+        n = len(v[2])
+        hd = bytes([n * 16 + CT[v[1]]]) if n <= 14 else bytes([0xF0 + CT[v[1]]]) + _varint(n)
+        return hd + b"".join(enc_cmp(x) for x in v[2])
+    if not v[3]:
+        return b"\x00"
+    return _varint(len(v[3])) + bytes([CT[v[1]] * 16 + CT[v[2]]]) + b"".join(enc_cmp(a) + enc_cmp(b) for a, b in v[3])
+
+
+ENC = {"bin": enc_bin, "le": enc_le, "cmp": enc_cmp}
+
+
+def shown(v):
+    v = canon(v)
+    return sexp(v) if v[0] == "struct" else "raw:" + (enc_bin(v).hex() or "-")
+
+
 def expected(items, name, v):
     try:
-        return sexp(canon(project_item(items, items[name], v)))
+        it = items[name]
+        if it["kind"] in ("typedef", "enum"):
+            return shown(project_ty(items, ("ref", name), v))
+        return sexp(canon(project_item(items, it, v)))
     except Reject:
         return "err"
 
@@ -484,6 +781,27 @@ def fixed_docs():
         {"kind": "union", "name": "Either", "fields": [F(1, "l", R("Leaf")), F(2, "t", R("Tree")), F(5, "n", ("i64",)), F(6, "u", ("uuid",)), F(7, "xs", ("list", ("i32",)))]},
         {"kind": "struct", "name": "Holder", "fields": [F(1, "e", R("Either"), "required"), F(2, "es", ("list", R("Either")), "optional"), F(3, "after", ("i32",), "required")]},
     ]})
+    # defaults of every literal kind, chosen so that a lossy lowering shows: integers beyond f32 / at the f64 rounding
+    # boundary for doubles, lists with adjacent equal elements, struct literals whose keys change under Rust naming
+    docs.append({"name": "dc", "items": [
+        {"kind": "enum", "name": "Lvl", "members": [("Low", 0), ("Mid", 5), ("High", 9)]},
+        {"kind": "struct", "name": "Pt", "fields": [F(1, "xCoord", ("i32",)), F(2, "UserName", ("string",), "optional"), F(3, "plain", ("i32",), "default", ("int", 4)),
+                                                    F(4, "RetryCount", ("i64",), "required"), F(5, "lvl", R("Lvl"), "optional")]},
+        {"kind": "struct", "name": "Dflt", "fields": [
+            F(1, "d1", ("double",), "default", ("int", 16777217)), F(2, "d2", ("double",), "optional", ("int", 1700000001)),
+            F(3, "d3", ("double",), "default", ("int", -9007199254740993)), F(4, "d4", ("double",), "optional", ("dbl", "0.1")),
+            F(5, "l1", ("list", ("i32",)), "default", ("list", [("int", 0), ("int", 0), ("int", 7)])),
+            F(6, "l2", ("list", ("string",)), "optional", ("list", [("str", "a"), ("str", "a"), ("str", "b")])),
+            F(7, "l3", ("list", ("bool",)), "default", ("list", [("int", 1), ("int", 1), ("int", 0)])),
+            F(8, "l4", ("list", R("Lvl")), "optional", ("list", [("enum", "Lvl", "Mid"), ("int", 5), ("enum", "Lvl", "Low")])),
+            F(9, "p", R("Pt"), "default", ("map", [(("str", "xCoord"), ("int", 5)), (("str", "UserName"), ("str", "n")), (("str", "RetryCount"), ("int", 9))])),
+            F(10, "q", R("Pt"), "optional", ("map", [(("str", "RetryCount"), ("int", 1)), (("str", "lvl"), ("enum", "Lvl", "High"))])),
+            F(11, "i8max", ("i8",), "default", ("int", 127)), F(12, "i64min", ("i64",), "optional", ("int", -9223372036854775807)),
+            F(13, "s1", ("set", ("i32",)), "default", ("list", [("int", 3), ("int", 1), ("int", 2)])),
+            F(14, "m1", ("map", ("i32",), ("list", ("i32",))), "optional", ("map", [(("int", 1), ("list", [("int", 2), ("int", 2)]))])),
+            F(15, "b1", ("bool",), "default", ("int", 2)), F(16, "bin", ("binary",), "optional", ("str", "a b")),
+        ]},
+    ]})
     return docs
 
 
@@ -521,11 +839,14 @@ def random_doc(r, name):
         if k in ("i8", "i16", "i32", "i64"):
             return ("int", r.randrange(-100, 100))
         if k == "double":
-            return ("int", r.randrange(-3, 9)) if r.random() < 0.5 else ("dbl", r.choice(["0.5", "-2.25", "1e3", "3.0"]))
+            return ("int", r.choice([r.randrange(-3, 9), 16777217, 33554433, 2 ** 53 + 1, -(2 ** 31) - 1])) if r.random() < 0.5 else ("dbl", r.choice(["0.5", "-2.25", "1e3", "3.0", "0.1"]))
         if k in ("string", "binary"):
             return ("str", r.choice(["", "a", "hello world", "x_y-z"]))
         if k == "list" and ty[1][0] in ("i32", "string", "bool"):
-            return ("list", [d for d in (rdefault(ty[1]) for _ in range(r.randrange(0, 3))) if d is not None])
+            xs = [d for d in (rdefault(ty[1]) for _ in range(r.randrange(0, 3))) if d is not None]
+            if xs and r.random() < 0.5:
+                xs.insert(0, xs[0])          # adjacent equal elements
+            return ("list", xs)
         if k == "ref":
             it = next((x for x in items if x["name"] == ty[1]), None)
             if it and it["kind"] == "enum":
@@ -581,12 +902,61 @@ def unknown_value(r, depth=2):
     return ("map", wire_tt(a), wire_tt(b), [(a, b)] * r.randrange(0, 2))
 
 
+def retype_elems(v):
+    """the same container with another element type on the wire (writer declared list<i64>, reader list<i32>)"""
+    k = v[0]
+    swap = {"i32": ("i64", lambda x: ("i64", x[1])), "i64": ("i32", lambda x: ("i32", x[1] % 1000)), "i8": ("i16", lambda x: ("i16", x[1])),
+            "i16": ("i32", lambda x: ("i32", x[1])), "binary": ("i32", lambda x: ("i32", len(x[1]))), "bool": ("i8", lambda x: ("i8", int(x[1])))}
+    if k in ("list", "set") and v[1] in swap and v[2]:
+        t, f = swap[v[1]]
+        return (k, t, [f(x) for x in v[2]])
+    if k == "map" and v[2] in swap and v[3]:
+        t, f = swap[v[2]]
+        return ("map", v[1], t, [(a, f(b)) for a, b in v[3]])
+    return None
+
+
+def hazards(items, it, w):
+    """known defects a writer-side value can run into (see known_findings.json): D29 a union variant whose wire
+    type differs from the declared type is decoded anyway; D26 container element types are not checked"""
+    hz = set()
+    known = {f["id"]: f for f in it["fields"]}
+    for i, x in w[1]:
+        f = known.get(i)
+        if f is None or f["ty"] is None:
+            continue
+        if wire_tt(x) != ttype(items, f["ty"]):
+            if it["kind"] == "union":
+                hz.add("D29")
+        elif x[0] in ("list", "set", "map"):
+            ty = f["ty"]
+            while ty[0] == "ref" and items[ty[1]]["kind"] == "typedef":
+                ty = items[ty[1]]["ty"]
+            if x[0] in ("list", "set") and x[1] != ttype(items, ty[1]):
+                hz.add("D26")
+            if x[0] == "map" and (x[1] != ttype(items, ty[1]) or x[2] != ttype(items, ty[2])) and x[3]:
+                hz.add("D26")
+    return hz
+
+
 def evolve(items, it, v, r):
     """rewrite a conforming struct value as a writer with a different schema would have sent it"""
     fs = list(v[1])
     declared = {f["id"] for f in it["fields"]}
+    if r.random() < 0.6:
+        # an unknown bool field immediately before a container of bools (compact: the skipped field's value lives in its header)
+        for j, (i, x) in enumerate(fs):
+            if (x[0] in ("list", "set") and x[1] == "bool" and x[2]) or (x[0] == "map" and "bool" in (x[1], x[2]) and x[3]):
+                fs.insert(j, (r.choice([u for u in (77, 1234, -7) if u not in declared]), ("bool", r.random() < 0.5)))
+                break
     for _ in range(r.randrange(1, 4)):
-        c = r.randrange(5)
+        c = r.randrange(6)
+        if c == 5 and fs:     # same field, same container kind, another element type
+            j = r.randrange(len(fs))
+            nv = retype_elems(fs[j][1])
+            if nv is not None:
+                fs[j] = (fs[j][0], nv)
+            continue
         if c == 0:      # unknown field inserted anywhere
             i = r.choice([x for x in [r.randrange(1, 60), 999, 32000, -1] if x not in declared] or [9999])
             fs.insert(r.randrange(len(fs) + 1), (i, unknown_value(r)))
